@@ -22,6 +22,7 @@ type Divergence struct {
 	Detail string            `json:"detail"`
 	Diff   []string          `json:"diff,omitempty"`
 	Item   *Concrete         `json:"item,omitempty"`
+	Pass   *SeqPass          `json:"pass,omitempty"` // part S: the pass that reproduces it
 }
 
 type HTTPInput struct {
